@@ -6,6 +6,7 @@ import (
 	"crypto/sha256"
 	"encoding/binary"
 	"fmt"
+	"os"
 	"sort"
 	"strings"
 	"testing"
@@ -230,14 +231,15 @@ func c20EntriesStr(es []c20Entry) string {
 // ---------------------------------------------------------------------------------------------
 // fixtures of one scenario
 type c20World struct {
-	t                       *testing.T
-	a                       *chain.App
-	app1, app2              uint64
+	t                        *testing.T
+	a                        *chain.App
+	app1, app2               uint64
 	cmdx, cmst, harbor, atom uint64
-	pairCmdx, pairAtom      uint64
-	epA, epB                uint64
-	liqPair, liqPool        uint64
-	users                   []sdk.AccAddress
+	pairCmdx, pairAtom       uint64
+	epA, epB                 uint64
+	usdc, epS                uint64 // stable-mint asset and extended pair (scenarios with rewards)
+	liqPair, liqPool         uint64
+	users                    []sdk.AccAddress
 }
 
 var c20Denoms = []string{"ucmdx", "ucmst", "uharbor", "uatom"}
@@ -250,7 +252,7 @@ func c20Balances(w *c20World, ctx sdk.Context) map[string]sdk.Int {
 			out[fmt.Sprintf("u%d/%s", i, c.Denom)] = c.Amount
 		}
 	}
-	for _, m := range []string{"vaultV1", "lockerV1", "collectorV1", "liquidityV1", "esmV1"} {
+	for _, m := range []string{"vaultV1", "lockerV1", "collectorV1", "liquidityV1", "esmV1", "rewardsV1", "auctionV1"} {
 		for _, c := range w.a.BankKeeper.GetAllBalances(ctx, modAddr(m)) {
 			out[m+"/"+c.Denom] = c.Amount
 		}
@@ -290,7 +292,7 @@ func c20BalDelta(before, after map[string]sdk.Int) uint64 {
 }
 
 type c20Scenario struct {
-	nVaults, closeVault int // closeVault: 0 none, k: close the k-th created vault (1-based)
+	nVaults, closeVault   int // closeVault: 0 none, k: close the k-th created vault (1-based)
 	nLockers, closeLocker int
 	drawFee               int64 // draw-down fee in percent (0 => no net fee from vaults)
 	nOrders               int
@@ -298,9 +300,10 @@ type c20Scenario struct {
 	withEsm               bool
 	withLiqSweep          bool // run the liquidation begin-blockers (sweep offsets)
 	withRewards           bool
-	withGenesisToken      bool // the collector's secondary asset is a genesis token of the app (then the
-	// validating collector.SetCollectorLookupTable succeeds at import)
-	amt int64
+	withGenesisToken      bool // the collector's secondary asset is a genesis token of the app (the validating
+	// collector.SetCollectorLookupTable, through which InitGenesis imported before C20-F12 was repaired, wants that)
+	amt      int64
+	liqBatch uint64 // batch size of the liquidation V1 sweep (small: the sweep offset matters)
 }
 
 // populate drives user messages (and the governance / wasm-binding entry points for configuration)
@@ -387,6 +390,21 @@ func c20Populate(w *c20World, ctx sdk.Context, sc c20Scenario, tr *tracer) {
 	}
 	if sc.withRewards {
 		_ = a.Rewardskeeper.WhitelistAppIDVault(ctx, w.app1)
+		// a stable-mint vault of an app that is white-listed for rewards: MsgCreateStableMint records the
+		// minter under StableVaultRewardsKeyPrefix
+		w.usdc = addAsset(t, a, ctx, "USDC", "uusdc", 1000000, false, false)
+		ps := addPair(t, a, ctx, w.usdc, w.cmst)
+		w.epS = addExtPair(t, a, ctx, extPairCfg{Name: "USDC-PSM", App: w.app1, Pair: ps, StabilityFee: sdk.ZeroDec(), ClosingFee: sdk.ZeroDec(),
+			LiqPenalty: sdk.ZeroDec(), DrawDownFee: sdk.NewDecWithPrec(1, 2), MinCr: sdk.OneDec(), DebtCeiling: sdk.NewInt(1000000000000), DebtFloor: sdk.NewInt(1000000),
+			Stable: true, Active: true, OraclePrice: false, AssetOutPrice: 1000000, MinUsdValLeft: 100000})
+		fund(t, a, ctx, w.users[5], sdk.NewCoins(sdk.NewCoin("uusdc", sdk.NewInt(100000000000))))
+		// external rewards for the stable-mint vaults of the app (a user message; the reward coins go to
+		// the rewards module account)
+		c0, err0, _ := execMsg(a, ctx, &rewardstypes.ActivateExternalRewardsStableMint{AppId: w.app1, CswapAppId: w.app2, CommodoAppId: w.app2, DurationDays: 3,
+			AcceptedBlockHeight: 1, TotalRewards: sdk.NewCoin("uharbor", sdk.NewInt(1000000000)), Depositor: w.users[4].String()})
+		must("stable-mint external rewards", c0, err0)
+		c, err, _ := execMsg(a, ctx, vaulttypes.NewMsgCreateStableMintRequest(w.users[5], w.app1, w.epS, sdk.NewInt(sc.amt*5)))
+		must("stable mint", c, err)
 		if sc.nLockers > 0 {
 			_ = a.Rewardskeeper.WhitelistAssetForInternalRewards(ctx, w.app1, w.cmst)
 		}
@@ -404,7 +422,7 @@ func c20Populate(w *c20World, ctx sdk.Context, sc c20Scenario, tr *tracer) {
 		if err != nil {
 			t.Fatalf("liquidity params: %v", err)
 		}
-		fund(t, a, ctx, w.users[6], params.PairCreationFee.Add(params.PoolCreationFee...))
+		fund(t, a, ctx, w.users[6], params.PairCreationFee.Add(params.PairCreationFee...).Add(params.PoolCreationFee...))
 		c, err2, _ := execMsg(a, ctx, liquiditytypes.NewMsgCreatePair(w.app1, w.users[6], "ucmdx", "ucmst"))
 		must("liquidity pair", c, err2)
 		w.liqPair = a.LiquidityKeeper.GetLastPairID(ctx, w.app1)
@@ -412,6 +430,9 @@ func c20Populate(w *c20World, ctx sdk.Context, sc c20Scenario, tr *tracer) {
 			sdk.NewCoins(sdk.NewCoin("ucmdx", sdk.NewInt(1000000000)), sdk.NewCoin("ucmst", sdk.NewInt(2000000000)))))
 		must("liquidity pool", c, err2)
 		w.liqPool = a.LiquidityKeeper.GetLastPoolID(ctx, w.app1)
+		// a second pair without a pool: the pair id counter and the pool id counter differ
+		c, err2, _ = execMsg(a, ctx, liquiditytypes.NewMsgCreatePair(w.app1, w.users[6], "uharbor", "ucmst"))
+		must("liquidity pair 2", c, err2)
 		for i := 0; i < sc.nOrders; i++ {
 			price := sdk.NewDecWithPrec(190+int64(i), 2)
 			c, err2, _ = execMsg(a, ctx, liquiditytypes.NewMsgLimitOrder(w.app1, w.users[i%4], w.liqPair, liquiditytypes.OrderDirectionBuy,
@@ -431,6 +452,11 @@ func c20Populate(w *c20World, ctx sdk.Context, sc c20Scenario, tr *tracer) {
 	}
 	if sc.withLiqSweep {
 		_ = a.LiquidationKeeper.WasmWhitelistAppIDLiquidation(ctx, w.app1)
+		a.LiquidationKeeper.SetParams(ctx, liquidationtypes.NewParams(sc.liqBatch))
+		// (auction V1 parameters of the app: a vault that the sweep liquidates in the random continuation
+		// gets its dutch auction)
+		a.AuctionKeeper.SetAuctionParams(ctx, auctiontypes.AuctionParams{AppId: w.app1, AuctionDurationSeconds: 300, Buffer: sdk.MustNewDecFromStr("1.2"),
+			Cusp: sdk.MustNewDecFromStr("0.6"), Step: sdk.NewIntFromUint64(1), PriceFunctionType: 1, SurplusId: 1, DebtId: 2, DutchId: 3, BidDurationSeconds: 300})
 		bctx := ctx.WithBlockHeight(ctx.BlockHeight() + 1).WithBlockTime(ctx.BlockTime().Add(6 * time.Second))
 		safely(func() { liquidation.BeginBlocker(bctx, abci.RequestBeginBlock{}, a.LiquidationKeeper) })
 	}
@@ -439,11 +465,11 @@ func c20Populate(w *c20World, ctx sdk.Context, sc c20Scenario, tr *tracer) {
 // ---------------------------------------------------------------------------------------------
 // continuation workload: the same operations on the original and on the re-imported chain
 type c20Step struct {
-	name           string
-	depMod         string // the (module, prefix) whose round trip this step observes ("-" 0: none)
-	depByte        int
-	run            func(ctx sdk.Context) (class string)
-	id             func(ctx sdk.Context) uint64
+	name    string
+	depMod  string // the (module, prefix) whose round trip this step observes ("-" 0: none)
+	depByte int
+	run     func(ctx sdk.Context) (class string)
+	id      func(ctx sdk.Context) uint64
 }
 
 func c20Keeper(f func(ctx sdk.Context) error) func(ctx sdk.Context) string {
@@ -530,11 +556,9 @@ func c20Continuation(w *c20World, sc c20Scenario) []c20Step {
 		)
 	}
 	if sc.nLockers > 0 {
+		// (MsgCreateLocker needs the collector lookup table: before the repair of C20-F12 it was dropped
+		// at import when the secondary asset was no genesis token of the app, and these steps failed)
 		lm, lb := "locker", 23
-		if !sc.withGenesisToken {
-			// the collector lookup table is dropped at import (class 12) and MsgCreateLocker needs it
-			lm, lb = "collector", 1
-		}
 		steps = append(steps,
 			c20Step{"locker.create", lm, lb, msg(lockertypes.NewMsgCreateLockerRequest(u[6].String(), amt, w.cmst, w.app1)), lockerID},
 			c20Step{"locker.create2", lm, lb, msg(lockertypes.NewMsgCreateLockerRequest(u[7].String(), amt, w.cmst, w.app1)), lockerID},
@@ -553,7 +577,10 @@ func c20Continuation(w *c20World, sc c20Scenario) []c20Step {
 		}
 	}
 	if sc.withLiquidity {
-		orderID := func(ctx sdk.Context) uint64 { p, _ := a.LiquidityKeeper.GetPair(ctx, w.app1, w.liqPair); return p.LastOrderId }
+		orderID := func(ctx sdk.Context) uint64 {
+			p, _ := a.LiquidityKeeper.GetPair(ctx, w.app1, w.liqPair)
+			return p.LastOrderId
+		}
 		steps = append(steps,
 			c20Step{"liquidity.order", "liquidity", 162, msg(liquiditytypes.NewMsgLimitOrder(w.app1, u[2], w.liqPair, liquiditytypes.OrderDirectionSell,
 				sdk.NewCoin("ucmdx", sdk.NewInt(1000000)), "ucmst", sdk.NewDecWithPrec(230, 2), sdk.NewInt(1000000), time.Hour)), orderID},
@@ -574,6 +601,28 @@ func c20Continuation(w *c20World, sc c20Scenario) []c20Step {
 		if sc.nOrders > 0 {
 			steps = append(steps, c20Step{"liquidity.cancel", "liquidity", 179, msg(liquiditytypes.NewMsgCancelOrder(w.app1, u[0], w.liqPair, 1)), none})
 		}
+	}
+	if sc.withRewards {
+		steps = append(steps,
+			c20Step{"vault.stable-rewards", "vault", 24, func(ctx sdk.Context) string {
+				if rs, ok := a.VaultKeeper.GetStableMintVaultUserRewards(ctx, w.app1, u[5].String()); ok && len(rs) > 0 {
+					return "ok"
+				}
+				return "err"
+			}, func(ctx sdk.Context) uint64 {
+				rs, _ := a.VaultKeeper.GetStableMintVaultUserRewards(ctx, w.app1, u[5].String())
+				return uint64(len(rs))
+			}},
+			c20Step{"rewards.stable-ext", "rewards", 41, func(ctx sdk.Context) string { return "ok" }, func(ctx sdk.Context) uint64 {
+				return uint64(len(a.Rewardskeeper.GetAllExternalRewardStableVault(ctx)))
+			}},
+			c20Step{"vault.stable-vault", "vault", 20, func(ctx sdk.Context) string {
+				if _, ok := a.VaultKeeper.GetStableMintVault(ctx, 1); ok {
+					return "ok"
+				}
+				return "err"
+			}, func(ctx sdk.Context) uint64 { return a.VaultKeeper.GetIDForStableVault(ctx) }},
+		)
 	}
 	if sc.withEsm {
 		steps = append(steps, c20Step{"esm.params", "esm", 1, func(ctx sdk.Context) string {
@@ -606,6 +655,37 @@ func c20Continuation(w *c20World, sc c20Scenario) []c20Step {
 	return steps
 }
 
+// per (module, prefix) comparison of the two branches: one `p` line each
+func c20DumpCompare(a *chain.App, tr *tracer, mods []c20Module, orig, reimp sdk.Context) {
+	for _, m := range mods {
+		do, dn := c20Dump(a, orig, m.store), c20Dump(a, reimp, m.store)
+		if po := c20ParamDump(a, orig, m.store); len(po) > 0 {
+			do[256] = po
+		}
+		if pn := c20ParamDump(a, reimp, m.store); len(pn) > 0 {
+			dn[256] = pn
+		}
+		bytes := map[int]bool{}
+		for b := range do {
+			bytes[b] = true
+		}
+		for b := range dn {
+			bytes[b] = true
+		}
+		var bs []int
+		for b := range bytes {
+			bs = append(bs, b)
+		}
+		sort.Ints(bs)
+		for _, b := range bs {
+			mo, lo, co := c20Stats(do[b])
+			mn, ln, cn := c20Stats(dn[b])
+			tr.p("p %s %d %d %d %d %d %d %d %d %d E%s N%s", m.name, b, len(do[b]), len(dn[b]), mo, lo, mn, ln, co, cn,
+				c20EntriesStr(do[b]), c20EntriesStr(dn[b]))
+		}
+	}
+}
+
 // ---------------------------------------------------------------------------------------------
 // TestC20: populate -> ExportGenesis of every DeFi module -> JSON -> InitGenesis into emptied module
 // stores (a branch of the same chain, so that bank / auth / staking state is identical) -> compare
@@ -619,6 +699,11 @@ func TestC20(t *testing.T) {
 	only := envInt("VERIF_CASE", -1)
 	mods := c20Modules()
 	cdc := a.AppCodec()
+	nRand := 12 // random continuation steps per case (the plan is always drawn in full)
+	if os.Getenv("VERIF_TIER") == "thorough" {
+		nRand = c20RandPlanLen
+	}
+	nRand = envInt("VERIF_C20_RAND", nRand)
 
 	for ci := 0; ci < ncases; ci++ {
 		sc := c20Scenario{nVaults: 1 + r.intn(5), nLockers: r.intn(5), drawFee: r.pickI(0, 1, 1, 2, 5), nOrders: r.intn(5),
@@ -647,13 +732,28 @@ func TestC20(t *testing.T) {
 				sc.drawFee = 1
 			}
 		}
+		if ci == 1 { // regression of C20-F1 / C20-F12: net fees collected, lockers, and a collector lookup table
+			// whose secondary asset is NOT a genesis token of the app (the validating import setter rejected it)
+			sc.withGenesisToken = false
+			if sc.nLockers == 0 {
+				sc.nLockers = 2
+			}
+			if sc.closeLocker == 1 {
+				sc.closeLocker = 0
+			}
+			if sc.drawFee == 0 {
+				sc.drawFee = 2
+			}
+		}
+		sc.liqBatch = r.pickU(2, 3, 200)
+		plan := c20DrawRandPlan(r)
 		if only >= 0 && ci != only {
 			continue
 		}
 		ctx, _ := base.CacheContext()
 		w := &c20World{t: t, a: a}
-		tr.p("case %d vaults=%d close=%d lockers=%d closel=%d fee=%d orders=%d liq=%s esm=%s sweep=%s rewards=%s gentoken=%s amt=%d", ci, sc.nVaults, sc.closeVault,
-			sc.nLockers, sc.closeLocker, sc.drawFee, sc.nOrders, b2s(sc.withLiquidity), b2s(sc.withEsm), b2s(sc.withLiqSweep), b2s(sc.withRewards), b2s(sc.withGenesisToken), sc.amt)
+		tr.p("case %d vaults=%d close=%d lockers=%d closel=%d fee=%d orders=%d liq=%s esm=%s sweep=%s batch=%d rewards=%s gentoken=%s amt=%d", ci, sc.nVaults, sc.closeVault,
+			sc.nLockers, sc.closeLocker, sc.drawFee, sc.nOrders, b2s(sc.withLiquidity), b2s(sc.withEsm), b2s(sc.withLiqSweep), sc.liqBatch, b2s(sc.withRewards), b2s(sc.withGenesisToken), sc.amt)
 		c20Populate(w, ctx, sc, tr)
 
 		// the two branches
@@ -671,40 +771,16 @@ func TestC20(t *testing.T) {
 			}
 			tr.p("imp %s %s", m.name, class)
 		}
-		for _, m := range mods {
-			do, dn := c20Dump(a, orig, m.store), c20Dump(a, reimp, m.store)
-			if po := c20ParamDump(a, orig, m.store); len(po) > 0 {
-				do[256] = po
-			}
-			if pn := c20ParamDump(a, reimp, m.store); len(pn) > 0 {
-				dn[256] = pn
-			}
-			bytes := map[int]bool{}
-			for b := range do {
-				bytes[b] = true
-			}
-			for b := range dn {
-				bytes[b] = true
-			}
-			var bs []int
-			for b := range bytes {
-				bs = append(bs, b)
-			}
-			sort.Ints(bs)
-			for _, b := range bs {
-				mo, lo, co := c20Stats(do[b])
-				mn, ln, cn := c20Stats(dn[b])
-				tr.p("p %s %d %d %d %d %d %d %d %d %d E%s N%s", m.name, b, len(do[b]), len(dn[b]), mo, lo, mn, ln, co, cn,
-					c20EntriesStr(do[b]), c20EntriesStr(dn[b]))
-			}
-		}
-		// continuation
-		for i, st := range c20Continuation(w, sc) {
+		c20DumpCompare(a, tr, mods, orig, reimp)
+		// continuation: the fixed steps, then a random sequence of messages and blocks
+		fixedSteps := c20Continuation(w, sc)
+		for i, st := range fixedSteps {
 			bo, bn := c20Balances(w, orig), c20Balances(w, reimp)
 			co := st.run(orig)
 			cn := st.run(reimp)
 			tr.p("cont %d %s %s %d %s %s %d %d %d %d", i, st.name, st.depMod, st.depByte, co, cn, st.id(orig), st.id(reimp),
 				c20BalDelta(bo, c20Balances(w, orig)), c20BalDelta(bn, c20Balances(w, reimp)))
 		}
+		c20RunRandom(w, sc, plan, nRand, orig, reimp, tr, len(fixedSteps))
 	}
 }
